@@ -157,6 +157,7 @@ def qid(q, i):
 
 @contract(SEND, "AxolotlSendLayer.getEnqueuedMessageNode", opaque_at_calls=True)
 def getEnqueuedMessageNode(self: Obj("AxolotlSendLayer"), messageId: Opt(Str), keepEnqueued: Bool) -> Opt(Opaque("node")):
+    requires(forall(range(0, len(self.sentQueue)), lambda i: self.sentQueue[i] is not None))       # the queue holds stanzas
     modifies(self.sentQueue)
     # None iff no queued message has that id; otherwise the FIRST such message; removed unless it is to be kept
     ensures(implies(result is None, forall(range(0, len(old(self.sentQueue))), lambda i: not (qid(old(self.sentQueue), i) == messageId))
